@@ -899,10 +899,26 @@ def rule_wrappers(m):
                             for t in region_atoms(f, tt, n['i']):
                                 if t and t[0] == 'bin' and t[1] == '==' and {t[2], t[3]} == {src, dest}:
                                     rt = tt.t(f.children(n['i'])[0])
-                                    if src in list(subterms(rt)):
+                                    # the literal one-vertex path: built from the source alone, no search / reconstruction call
+                                    if src in list(subterms(rt)) and not any(st[0] in ('call', 'mcall', 'icall') for st in subterms(rt)):
                                         okr = True
                     if not okr:
                         why = 'source == destination does not return the one-vertex path {source}'
+            if why is None and not single:
+                # one entry per vertex: the reconstruction where reached, an empty entry otherwise (indices = vertices)
+                pushes = [n for n in f.nodes if n['k'] == 'CXXMemberCallExpr' and 'callee' in n and
+                          u.decl(n['callee'])['name'] in ('push_back', 'emplace_back') and
+                          u.decl(n['callee']).get('record') == 'std::vector']
+                rp = [n for n in pushes if rcalls[0]['i'] in f.descendants(n['i'])]
+                ep = [n for n in pushes if n not in rp and tt.t(n['obj']) == (tt.t(rp[0]['obj']) if rp else None)]
+                if len(rp) != 1:
+                    why = 'expected the reconstruction of a reached vertex to be appended to the result'
+                else:
+                    extra_r = f.region(rp[0]['i'])
+                    comp = [n for n in ep if any((d[0], 1 - d[1]) in f.region(n['i']) for d in extra_r)]
+                    if not comp:
+                        why = 'no (empty) entry is appended for a vertex that was not reached: the entries after it no longer ' \
+                              'sit at the index of their vertex'
             if why:
                 res.fail(Finding('F-WRAP', disp, 'wrapper structure', f.where(), why))
             else:
